@@ -40,12 +40,33 @@ func genRegress() []caseSpec {
 	add("F-C06-c:checksigadd", wTapscript, std, cat([]byte{0x00}, pushBytes(keys[1].comp), []byte{0xba, 0x91}), empty1)
 	add("F-C06-c:checksig-consensus", wTapscript, consensusAll, cat(pushBytes(keys[1].comp), []byte{0xac, 0x91}), empty1)
 
-	// F-C06-b: empty signature, OP_0 in a legacy script, CONST_SCRIPTCODE
+	// F-C06-b (fixed): empty signature, OP_0 in a legacy script: CONST_SCRIPTCODE, and the script code of the
+	// other signatures of a CHECKMULTISIG
 	fd := cat([]byte{0x00, 0x75}, pushBytes(keys[1].comp), []byte{0xac, 0x91})
 	add("F-C06-b:bare", wBare, std, fd, empty1)
 	add("F-C06-b:p2sh", wP2SH, std, fd, empty1)
 	add("F-C06-b:p2wsh-not-affected", wP2WSH, std, fd, empty1)
 	add("F-C06-b:consensus-flags", wBare, consensusAll, fd, empty1)
+
+	// 3-of-4 CHECKMULTISIG NOT whose script contains an empty key push (OP_0); signatures, first evaluated
+	// first: s1 by the last key, s2 not DER (an error under DERSIG, but only if s1 verified), s3 empty (its
+	// push is OP_0, so the script code of s1 loses the OP_0). s1 is made over the script code with or
+	// without the OP_0: exactly one of the two verifies.
+	for _, strip := range []bool{false, true} {
+		strip := strip
+		for _, fl := range []txscript.ScriptFlags{consensusAll, txscript.ScriptBip16 | txscript.ScriptVerifyDERSignatures} {
+			ms3 := cat([]byte{0x53}, pushBytes(keys[1].comp), pushBytes(keys[2].comp), []byte{0x00}, pushBytes(keys[0].comp), []byte{0x54, 0xae, 0x91})
+			add("F-C06-b:multisig-sighash", wBare, fl, ms3, func(b *builtSpend) [][]byte {
+				code := ms3
+				if strip {
+					code = cat([]byte{0x53}, pushBytes(keys[1].comp), pushBytes(keys[2].comp), pushBytes(keys[0].comp), []byte{0x54, 0xae, 0x91})
+				}
+				s1 := b.ecdsaSig(sigPlan{key: keys[0], ht: 1}, code, keys)
+				s2 := b.ecdsaSig(sigPlan{key: keys[2], ht: 1, variant: 3}, code, keys)
+				return [][]byte{{}, {}, s2, s1}
+			})
+		}
+	}
 
 	// F-C06-d: signature encodings accepted by Core's lax parser only (no DERSIG)
 	p2pk := cat(pushBytes(keys[1].comp), []byte{0xac})
